@@ -82,7 +82,7 @@ def check_evaluation(case):
         parsed = sut.call(api.parse_cond, text)
         if not parsed.ok:
             fail("parse", f"well-formed expression {text!r} was not parsed: {parsed!r}")
-        res = sut.call(api.evaluate_requirement_constraint_tree, parsed.value, evalhelp.input_nodes(ast, assignment))
+        res = sut.call(lambda: api.evaluate_requirement_constraint_tree(parsed.value, evalhelp.input_nodes(ast, assignment)))
         if res.ok:
             returned += 1
             if verdict == "invalid":
@@ -218,10 +218,13 @@ def strategy_evaluation(tier):
 
 def strategy_ahb(tier):
     size = max(4, BOUNDS[tier]["max_atoms"] // 2)
-    pools = {"rc": gen.RC_POOL[:4], "hint": gen.HINT_POOL[:3], "fc": gen.FC_POOL[:3]}
+    plain_pools = {"rc": gen.RC_POOL[:4], "hint": gen.HINT_POOL[:3], "fc": gen.FC_POOL[:3]}
+    # the grammar admits leading zeros ([01] is requirement constraint 1, [0501] a hint); the key is the written text
+    zero_pools = {"rc": ["01", "0499", "2000", "02499"], "hint": ["0500", "900", "0501"], "fc": ["0901", "999", "0902"]}
 
     @st.composite
     def build(draw):
+        pools = zero_pools if draw(st.sampled_from(range(4))) == 0 else plain_pools
         shape = draw(gen.g_ahb_shape(max_parts=3, bare_ok=True))
         parts, rendered = [], []
         for indicator, has_cond in shape:
